@@ -86,7 +86,7 @@ PROPS = {
                          "and the endpoint stays registered", "x690 decode contract on the TLV term algebra"],
     },
     "C16": {
-        "units": [tables.units, pythonic.units_tables], "level": "other", "design_ref": "7.16",
+        "units": [tables.units, pythonic.units_tables, walks.units_c16], "level": "other", "design_ref": "7.16",
         "technique": VC + "util.tablify executed on a symbolic stream (OIDs, values, base length symbolic; stream length "
                      "enumerated) against the row/cell postcondition; Client.table/bulktable checked at their call sites "
                      "(stream = the walk's stream, column = arc after the entry arc); walks used by their C01/C02 contracts",
